@@ -12,7 +12,7 @@
     Not decided here (labelled partial in notes/C15.md): that the critical-point and saturation solvers converge for
     the model of each record. *)
 From Coq Require Import List String ZArith QArith.
-From FeosVerif Require Import RecordsC15.
+From FeosVerif Require Import RecordsC15 IdealGasC15.
 Import ListNotations.
 Open Scope string_scope.
 
@@ -149,3 +149,31 @@ Theorem C15_kind_unique_except : forall k exc (ids : list ident),
     kind_uniqb k exc ids = true -> NoDup (filter (fun v => negb (memb v exc)) (keys (get_kind k) ids)).
 Proof. exact kind_uniqb_sound. Qed.
 Print Assumptions C15_kind_unique_except.
+
+(** ideal-gas records.  DIPPR equation 100: a name, at least one coefficient, heat capacity positive on the grid *)
+Theorem C15_dippr_collection : forall grid (l : list pure_rec),
+    collection_okb (dippr_okb grid) l = true ->
+    Forall (fun r => ideal_ok r /\ dippr_coefs r <> [] /\ Forall (fun t => 0 < cp (dippr_coefs r) t)%Q grid) l
+    /\ NoDup (names l)
+    /\ (forall r k, In r l -> p_name r = Some k -> lookup p_name k l = Some r).
+Proof. exact dippr_collection_sound. Qed.
+Print Assumptions C15_dippr_collection.
+
+(** the exact thermal de Broglie wavelength of a polynomial heat capacity is total in the number of coefficients:
+    for a single coefficient (constant heat capacity) it is the textbook expression *)
+Theorem C15_ideal_gas_constant_cp : forall R t0 c t, ~ (t == 0)%Q -> ~ (R == 0)%Q ->
+    (ig_rat R t0 [c] t == c * (t - t0) / (t * R))%Q /\ (ig_log R [c] == - c / R)%Q /\ (cp [c] t == c)%Q.
+Proof. exact ideal_gas_constant_cp. Qed.
+Print Assumptions C15_ideal_gas_constant_cp.
+
+Theorem C15_ideal_gas_reference : forall R t0 cs, ~ (t0 == 0)%Q -> ~ (R == 0)%Q -> (ig_rat R t0 cs t0 == 0)%Q.
+Proof. exact ig_rat_ref. Qed.
+Print Assumptions C15_ideal_gas_reference.
+
+(** Joback: every gc substance assembles to five coefficients with a heat capacity positive on the grid *)
+Theorem C15_joback_assembly : forall grid table chems,
+    forallb (joback_gc_okb grid table) chems = true ->
+    Forall (fun c => chem_ok (seg_ids table) c /\
+              exists cs, joback_coefs table c = Some cs /\ List.length cs = 5%nat /\ Forall (fun t => 0 < cp cs t)%Q grid) chems.
+Proof. exact joback_gc_all_sound. Qed.
+Print Assumptions C15_joback_assembly.
